@@ -209,6 +209,7 @@ theorem xdims_ok {c : Counts} {op : Op} {ds ds' : Dims} (hs : Scoped op = true)
   | topoAgg d => simp [xdims] at hx
   | remap g d => simp [xdims] at hx
   | getDual cl c => simp [xdims] at hx
+  | getDualR c => simp [xdims] at hx
 
 /-! ## one step -/
 
@@ -412,6 +413,34 @@ theorem step_preserves_inv {T : Table} {s s' : State} {op : Op} (hg : OpGood T o
     | edge => simp [hqd, Dim.isGrid] at hq'; simp [Dim.swap, Counts.dual, Counts.get, hq']
     | face => simp [hqd, Dim.isGrid] at hq'; simp [Dim.swap, Counts.dual, Counts.get, hq']
     | other k => simp [hqd, Dim.swap, Dim.isGrid] at hpg
+  | getDualR c =>
+    simp only [step, hc] at h
+    split at h
+    · rename_i x d hx hcd
+      cases hx
+      split at h
+      · cases h
+      · rename_i hne
+        cases h
+        refine ⟨rfl, s.heap.length, _, rfl, heap_append_last _ _, ?_⟩
+        intro p hp hpg
+        simp only [List.mem_map] at hp
+        obtain ⟨q, hq, rfl⟩ := hp
+        by_cases hqn : q.1 = .node
+        · simp [hqn, Counts.get]
+        · simp only [hqn, if_false] at hpg ⊢
+          have hq' := hd q hq
+          cases hqd : q.1 with
+          | node => exact absurd hqd hqn
+          | edge =>
+            -- the only grid dimension is `d`, and `d ≠ edge`
+            have := centred_only hcd q hq (by simp [hqd, Dim.isGrid])
+            rw [hqd] at this
+            subst this
+            simp at hne
+          | face => simp [hqd, Dim.isGrid] at hq'; simp [Dim.swap, Counts.get, hq']
+          | other k => simp [hqd, Dim.swap, Dim.isGrid] at hpg
+    · cases h
 
 
 /-! ## programs of any length -/
@@ -535,6 +564,7 @@ theorem same_grid {T : Table} {s s' : State} {op : Op} (hg : OpGood T op)
     · cases h
   | remap g2 dest => simp [Op.sameGrid] at hs
   | getDual cl c => simp [Op.sameGrid] at hs
+  | getDualR c => simp [Op.sameGrid] at hs
 
 /-- a whole program of same-grid operations ends on the grid it started on -/
 theorem program_same_grid {T : Table} : ∀ (p : List Op) (s s' : State),
@@ -1059,8 +1089,12 @@ theorem asis_program_inv_false :
   have := h [.elem .arith, .elem .astype, .reduce [.other 0]] w0 _ (attachedB_iff.mp (by decide)) rfl
   exact absurd (attachedB_iff.mpr this) (by decide)
 
-/-- positional slicing of a grid dimension (`uxda[..., 0:3]`, `isel(indexers=…)`, `sel`, `head`)
-    goes through `_replace`: the result keeps the UN-sliced grid, for every table -/
+/-- positional slicing of a grid dimension through xarray's own path goes through `_replace`: the result
+    keeps the UN-sliced grid, for every table.  AS IT STOOD this was every non-keyword form; with
+    fixes/C10-positional-face-indexing-slices-grid.patch the forms that reach `UxDataArray.isel`
+    (`uxda[..., faces]`, `isel(indexers=…)`) are the operation `gridIsel` for FACES (covered by
+    `uxcall_preserves_inv`); it remains the behaviour of `sel` / `head` / `tail` / `thin` and of n_node /
+    n_edge (no exact sub-grid exists for a set of nodes or edges). -/
 theorem asis_positional_slice_stale_grid (T : Table) (hT : (T .indexGrid).good = true) :
     ∃ s', step T w0 (.index .face (.len 3)) = some s' ∧ s'.arr.grid = some 0 ∧ ¬ Inv s' := by
   refine ⟨⟨w0.heap, ⟨true, some 0, [(.other 0, 3), (.face, 3)]⟩⟩, ?_, rfl, ?_⟩
@@ -1072,7 +1106,19 @@ theorem asis_positional_slice_stale_grid (T : Table) (hT : (T .indexGrid).good =
   · intro hi
     exact absurd (attachedB_iff.mpr hi) (by decide)
 
-/-- `get_dual` of a partial mesh: node-centred data keep their length but the dual has fewer faces -/
+/-- **`get_dual` REPAIRED keeps the invariant on EVERY mesh** — no hypothesis on the mesh (closed or partial,
+    hanging nodes or not), for node- and face-centred data with any leading dimensions in any order -/
+theorem get_dual_repaired_inv {T : Table} {s s' : State} {c : Counts} (hi : Inv s)
+    (h : step T s (.getDualR c) = some s') : Inv s' :=
+  step_preserves_inv ⟨rfl, fun k hk => by cases hk⟩ hi h
+
+/-- the partial-mesh witness of `asis_get_dual_partial`, repaired: 12 node values → the 2 faces of the dual -/
+theorem get_dual_repaired_witness :
+    (step asIs ⟨[⟨⟨12, 17, 6⟩, 0⟩], ⟨true, some 0, [(.other 0, 2), (.node, 12)]⟩⟩ (.getDualR ⟨6, 7, 2⟩)).map (·.arr)
+      = some ⟨true, some 1, [(.other 0, 2), (.face, 2)]⟩ := by decide
+
+/-- AS IT STOOD for every centring (still the behaviour for edge-centred data):
+    `get_dual` of a partial mesh: node-centred data keep their length but the dual has fewer faces -/
 theorem asis_get_dual_partial :
     ∃ s', step asIs ⟨[⟨⟨12, 17, 6⟩, 0⟩], ⟨true, some 0, [(.node, 12)]⟩⟩ (.getDual false ⟨6, 7, 2⟩) = some s'
       ∧ ¬ Inv s' :=
